@@ -1,4 +1,5 @@
 import Qryn.Proofs.RunsX
+import Qryn.Proofs.AnalyzeX
 /-! `plan_correct_ext`: `Sql.evalSelX (planLogX c fin q) = evalLogX o c fin d q`. -/
 namespace Qryn.LogQL
 open Qryn Qryn.Sql
@@ -276,9 +277,12 @@ theorem planLogX_correct (o : Oracles) (c : Ctx) (hn : c.namesOk) (d : LokiDb) (
   obtain ⟨T, rest, hchain, hT⟩ := fpChainX_eval o c hn d (labelConds ⟨q.matchers, (splitPre q.stages).1⟩)
     (streamSelect c q.matchers) 0 [] (streamSelected o c d q.matchers) (streamSelectX_eval o c hn d q.matchers hm [])
   have hT' : FpTable T (fpSelected o c d ⟨q.matchers, (splitPre q.stages).1⟩) := hT
+  -- the plan's analysis (`analyzeScript`) splits the pipeline where the specification does
+  have ha : analyze q.stages = ⟨labelConds ⟨q.matchers, (splitPre q.stages).1⟩, (splitPre q.stages).1, (splitPre q.stages).2⟩ :=
+    analyze_eq_splitPre q.stages
   rcases splitPre_snd q.stages with hpost | ⟨ch, more, hpost⟩
   · -- only filters: `planLog` with the limit / final order of `fin`
-    simp only [planLogX, evalLogX, hpost, evalSelX, evalWithsX_append, hchain, evalWithsX]
+    simp only [planLogX, ha, evalLogX, hpost, evalSelX, evalWithsX_append, hchain, evalWithsX]
     have hmain := mainX_eval o (limCtx c fin) d ⟨q.matchers, (splitPre q.stages).1⟩ ((.named "fp_sel", T) :: rest) T
       (by simp [List.lookup]) hT'
     have hmain' : evalBodyX o (d.toDb c) ((.named "fp_sel", T) :: rest) (mainSel (limCtx c fin) ⟨q.matchers, (splitPre q.stages).1⟩) =
@@ -291,7 +295,7 @@ theorem planLogX_correct (o : Oracles) (c : Ctx) (hn : c.namesOk) (d : LokiDb) (
   · -- at least one parser / drop
     obtain ⟨cs, runs, hgr⟩ := group_head_ch ch more
     have hall : AllChNonempty runs := fun cs' hm' => allCh_group (.ch ch :: more) cs' (by rw [hgr]; exact List.mem_cons_of_mem _ hm')
-    simp only [planLogX, evalLogX, hpost, evalSelX, evalWithsX_append, hchain, evalWithsX, hgr]
+    simp only [planLogX, ha, evalLogX, hpost, evalSelX, evalWithsX_append, hchain, evalWithsX, hgr]
     have hmain := mainX_eval o { c with limit := 0 } d ⟨q.matchers, (splitPre q.stages).1⟩ ((.named "fp_sel", T) :: rest) T
       (by simp [List.lookup]) hT'
     have hmain' : evalBodyX o (d.toDb c) ((.named "fp_sel", T) :: rest) (mainSel { c with limit := 0 } ⟨q.matchers, (splitPre q.stages).1⟩) =
@@ -324,11 +328,6 @@ namespace Qryn.LogQL
 open Qryn Qryn.Sql
 
 /-! ### facts about the specification -/
-def changersOf : List StageX → List Changer
-  | [] => []
-  | .ch c :: rest => c :: changersOf rest
-  | .fl _ :: rest => changersOf rest
-
 def filtersOf : List StageX → List Stage
   | [] => []
   | .fl s :: rest => s :: filtersOf rest
